@@ -75,7 +75,7 @@ func verifExpect(nodes []verifNode, c *verifCounter, plain bool) []verifMark {
 			out = append(out, verifMark{T: "lab", Target: t})
 		case "imgx": /* media without a source: its text, no number */
 			out = append(out, verifMark{T: "tok", Id: c.token()})
-		case "hr", "br", "long":
+		case "hr", "br", "long", "wide":
 		default:
 			out = append(out, verifExpect(n.Kids, c, plain)...)
 		}
@@ -116,6 +116,17 @@ func verifHTML(rng *rand.Rand, nodes []verifNode, c *verifCounter, inA bool, inH
 			b.WriteString("<br>")
 		case "long":
 			b.WriteString(strings.Repeat("w", 20+rng.Intn(120)) + " ")
+		case "wide":
+			/* nothing but white space, wider than a line, between explicit line breaks */
+			n := 40 + rng.Intn(120)
+			switch rng.Intn(3) {
+			case 0:
+				b.WriteString("<br><code>" + strings.Repeat(" ", n) + "</code><br>")
+			case 1:
+				b.WriteString("<br>" + strings.Repeat("&nbsp;", n) + "<br>")
+			default:
+				b.WriteString("<br>" + strings.Repeat("&nbsp; ", n/2) + "<br>")
+			}
 		case "ax":
 			if inA {
 				return "", false
@@ -196,6 +207,11 @@ func verifMarkdown(nodes []verifNode, c *verifCounter, inA bool, inline bool, qu
 			b.WriteString(fmt.Sprintf("![%s](%s) ", id, t))
 		case "long":
 			b.WriteString(strings.Repeat("w", 100) + " ")
+		case "wide":
+			if inline {
+				return "", false
+			}
+			b.WriteString("x  \n" + quote + strings.Repeat("&nbsp;", 130) + "  \n" + quote)
 		case "hr":
 			if inline {
 				return "", false
@@ -268,6 +284,8 @@ func verifGemtext(nodes []verifNode, c *verifCounter) (string, bool) {
 			lines = append(lines, []string{"> ", "* ", "# ", "## ", "### ", ">"}[len(lines)%6]+text)
 		case "long":
 			lines = append(lines, strings.Repeat("w", 130))
+		case "wide":
+			lines = append(lines, strings.Repeat(" ", 120), "```", strings.Repeat(" ", 110), "```")
 		case "pre":
 			text, ok := verifFlatTokens(n.Kids, c)
 			if !ok {
@@ -305,6 +323,8 @@ func verifPlain(nodes []verifNode, c *verifCounter) (string, bool) {
 			words = append(words, strings.Repeat("w", 150))
 		case "br":
 			words = append(words, "\n        ")
+		case "wide":
+			words = append(words, "\n"+strings.Repeat(" ", 140)+"\n")
 		default:
 			return "", false
 		}
@@ -375,7 +395,7 @@ func verifRandomDoc(rng *rand.Rand, depth int) []verifNode {
 	n := 1 + rng.Intn(4)
 	out := make([]verifNode, n)
 	for i := range out {
-		kind := []string{"txt", "txt", "img", "a", "sty", "blk", "imgx", "hr", "br", "long", "ax", "pre", "unk", "img", "a"}[rng.Intn(15)]
+		kind := []string{"txt", "txt", "img", "a", "sty", "blk", "imgx", "hr", "br", "long", "ax", "pre", "unk", "img", "a", "wide"}[rng.Intn(16)]
 		inner := kind == "a" || kind == "sty" || kind == "blk" || kind == "ax" || kind == "pre" || kind == "unk"
 		if depth == 0 && inner {
 			kind, inner = "txt", false
